@@ -90,8 +90,7 @@ class C09(Check):
             'relevant server capabilities in both URN forms (incl. the empty list, base-only and module-namespaces-only), with-defaults basic-mode / also-supported variants, x gated calls x profiles, '
             'executed through the real Manager on a stub session: exception class and silence on the wire compared with the model of the gate; '
             '(c) the request builders on random ARGUMENT VALUES (datastore names, URLs, option values, texts) x random capability subsets, compared with Model/Builders (outcome, refusal class and missing capability, request bytes). '
-            'Every fourth builder call in asynchronous mode, server capabilities snapshot around each call, blank with-defaults modes, 2-4 threads making their first gated calls on one session at the same instant. '
-            'Non-trivial = a call with at least one documented dependency; distinct by case.')
+            'Every fourth builder call in asynchronous mode, server capabilities snapshot around each call, blank with-defaults modes, 2-4 threads making their first gated calls on one session at the same instant. Non-trivial = a call with at least one documented dependency; distinct by case.')
     TRUST = ['the catalogue of argument shapes in harness/gen/optable.py (which calls are probed)']
 
     def gen_tables(self, log):
